@@ -322,7 +322,7 @@ class Driver:
         """h = RunBegin entry; rest = following history entries up to and including the run's terminator."""
         sb = self.sb
         if self.backend == "local":
-            return self.step_run_local(h)
+            return self.step_run_local(h, rest)
         term = rest[-1]
         nsub = sum(1 for x in rest if x["act"] == "RunSubmit")
         cmd = SUBMIT[self.backend]
@@ -373,10 +373,55 @@ class Driver:
             self.adversarial_drain()   # (with "drain": every recovery run after a failure or cancellation)
             self.step_status({"sel": []})   # look at the result at once (a status query is always legal)
 
-    def step_run_local(self, h):
+    def step_run_local(self, h, rest=()):
+        """Interruptions on the local back end: the pool fails on the k-th enqueue request (the connection
+        drops: RunReject), the gwf process is killed when its k-th request arrives (Crash), or gwf dies inside
+        the final write of a state file (CrashWrite, same killing writer as for the cluster back ends)."""
         self.local_sync()
+        term = rest[-1] if rest else {"act": "RunEnd"}
+        nsub = sum(1 for x in rest if x["act"] == "RunSubmit")
         self.events.append({"act": "RunBegin", "sel": h["sel"]})
-        r, calls, obs = self.observe_cmd(["run"] + self.names(h["sel"]), sub=False)
+        pool = self.pool
+        pool.run_enq, nref = 0, len(pool.refused)
+        killenv, killed = None, []
+        if term["act"] == "RunReject":
+            pool.fault = (nsub + 1, None)
+            r, calls, obs = self.observe_cmd(["run"] + self.names(h["sel"]), sub=False)
+        elif term["act"] == "Crash":
+            import subprocess
+            import sys
+
+            sig0, dig0 = self.hashfile_sig(), self.sb.digest()
+            cwd = self.sb.path(self.subdir) if self.subdir else self.sb.proj
+            p = subprocess.Popen([sys.executable, "-c", "from gwf.cli import main; main()", "run"] + self.names(h["sel"]), cwd=cwd,
+                                 env=self.sb.env(), stdout=subprocess.PIPE, stderr=subprocess.PIPE, text=True)
+
+            def kill():
+                import signal
+                import time as _t
+
+                killed.append(True)
+                os.kill(p.pid, signal.SIGKILL)
+                for _ in range(400):      # the client is dead before the pool goes on
+                    try:
+                        if open("/proc/%d/stat" % p.pid).read().rsplit(")", 1)[-1].split()[0] == "Z":
+                            break
+                    except OSError:
+                        break
+                    _t.sleep(0.005)
+
+            pool.fault = (nsub + 1, kill)
+            out, err = p.communicate(timeout=120)
+            after, trk_ok, hsh_ok = self.after()
+            obs = {"exit": p.returncode, "exc": "", "after": after, "trk_ok": trk_ok, "hsh_ok": hsh_ok, "pure": False,
+                   "hashfile_same": self.hashfile_sig() == sig0, "sacct_called": False, "stderr": (err or "")[-400:]}
+        elif term["act"] == "CrashWrite":
+            fname = "backend-tracked.json" if term["file"] == "trk" else "spec-hashes.json"
+            killenv = {"GWFV_KILL_FILE": fname, "GWFV_KILL_OCC": "1", "GWFV_KILL_POS": str(self.rng.choice([0, 1, 2, 99, 100, 101, 102, 200, 200, 201]))}
+            r, calls, obs = self.observe_cmd(["run"] + self.names(h["sel"]), killenv=killenv)
+        else:
+            r, calls, obs = self.observe_cmd(["run"] + self.names(h["sel"]), sub=False)
+        pool.fault = None
         new = self.pool.enqueued[self.seen_enq:]
         self.seen_enq = len(self.pool.enqueued)
         for tid, name, deps in new:
@@ -391,7 +436,15 @@ class Driver:
             self.local_trk[t] = (tid, jid)
             self.events.append({"act": "RunSubmit", "t": t, "id": jid, "hold": hold, "kind": "local" if hold else "none", "bad": ""})
         obs["after"] = self.after()[0]   # tracked ids are interpreted with the submissions just recorded
-        obs.update(act="RunEnd")
+        refused = [self.inv.get(n, str(n)) for n in pool.refused[nref:]]
+        if killenv and obs["exit"] == 137:
+            obs.update(act="CrashWrite", file=term["file"], kill=killenv)
+        elif killed:
+            obs.update(act="Crash", after_n=nsub)
+        elif refused:
+            obs.update(act="RunReject", t=refused[0], fault="pool failed on the request")
+        else:
+            obs.update(act="RunEnd")
         self.events.append(obs)
         self.local_sync()
 
